@@ -26,13 +26,13 @@ for r in sorted(rows):
     out.append("| %s | %s | %s | %s |" % r)
 out.append("")
 out.append("### 11.5 Seeded changes (written by independent agents from the property text only) and which check catches them\n")
-out.append("| seeded | site | needs | caught by | note |")
-out.append("|---|---|---|---|---|")
+out.append("| seeded | site | needs | caught by | note | when it arrived |")
+out.append("|---|---|---|---|---|---|")
 for d in sorted(glob.glob(os.path.join(V, "seeded", "C*"))):
     m = json.load(open(os.path.join(d, "meta.json")))
     c = m.get("caught", {})
-    out.append("| %s | %s | %s | %s | %s |" % (os.path.basename(d), str(m.get("site", "")).replace("|", "/")[:80],
-               str(m.get("needs", "")).replace("|", "/").replace("\n", " ")[:200], c.get("by", "?"), c.get("note", "")))
+    out.append("| %s | %s | %s | %s | %s | %s |" % (os.path.basename(d), str(m.get("site", "")).replace("|", "/")[:80],
+               str(m.get("needs", "")).replace("|", "/").replace("\n", " ")[:200], c.get("by", "?"), c.get("note", ""), str(m.get("first_verdict", ""))[:60]))
 out.append("")
 out.append("### 11.6 Per-property status (from tools/manifest/Cxx.json and the last evidence files)\n")
 enabled = set(open(os.path.join(V, "tools", "enabled.txt")).read().split())
